@@ -510,6 +510,11 @@ class EIG(BaseRoutine):
         self.summary()
         t1, s = elapsed()
 
+        # evaluate the Jacobians at the current operating point and parameter values;
+        # those left in `dae` may stem from an earlier point (dishonest Newton) or from before `alter`
+        system.TDS.fg_update(system.exist.pflow_tds)
+        system.j_update(system.exist.pflow_tds)
+
         self.calc_As()
         self.mu, self.pfactors, self.N, self.W = self.calc_pfactor()
         self._store_stats()
